@@ -193,7 +193,10 @@ class IsotropicNormal(ssm_impl_api.AbstractTreeNormal[IsotropicTreeFlatten]):
     def _std_batched(self):
         if self.mean_flat.ndim > 2:
             return func.vmap(IsotropicNormal._std_batched)(self)
-        std_flat = func.vmap(linalg.vector_norm)(self.cholesky_flat)
+        # Like the dense model: row norms via qr_r, whose derivative is finite for
+        # zero rows (noise-free initial states); vector_norm's is NaN there.
+        std_flat = func.vmap(linalg.qr_r)(self.cholesky_flat[..., None])
+        std_flat = np.abs(std_flat.reshape((-1,)))
         return self.tree_flatten.unflatten_array_scalar(std_flat)
 
     def residual_whitened_rms_tree(self, u):
